@@ -231,13 +231,13 @@ def write_text(d, spec, path, time_style="unixtime", missing_token="-999", row_o
 # NetCDF files
 # --------------------------------------------------------------------------------------
 def write_netcdf(d, spec, path, missing="fill", dtype="f4", time_dtype="f8", with_altitude=True, with_location=True,
-                 dim_order=None):
+                 dim_order=None, nc_format="NETCDF4"):
     """missing: 'fill' (masked/_FillValue), '-999', 'nan', 'big' (1e36)."""
     import netCDF4
     times = [spec["times"][i] for i in d["ti"]]
     leads = [spec["leadtimes"][i] for i in d["li"]]
     locs = [spec["locs"][i] for i in d["si"]]
-    nc = netCDF4.Dataset(path, "w", format="NETCDF4")
+    nc = netCDF4.Dataset(path, "w", format=nc_format)
     dims = dim_order or ["time", "leadtime", "location"]
     sizes = {"time": len(times), "leadtime": len(leads), "location": len(locs)}
     for name in dims:
